@@ -686,3 +686,50 @@ func (d *Disk) HashExcept(ext []Extent) [32]byte {
 	copy(out[:], h.Sum(nil))
 	return out
 }
+
+// HashRangeCanonical hashes [off, off+n) in 4 KiB chunks aligned to off (zero chunks skipped), so
+// that the same bytes at another device offset give the same hash.
+func (d *Disk) HashRangeCanonical(off, n int64) [32]byte {
+	h := sha256.New()
+	chunks := map[int64]struct{}{}
+	first := off / PageSize
+	last := (off + n - 1) / PageSize
+	for k := range d.pages {
+		if k < first || k > last {
+			continue
+		}
+		lo := k*PageSize - off
+		hi := lo + PageSize - 1
+		if lo < 0 {
+			lo = 0
+		}
+		if hi >= n {
+			hi = n - 1
+		}
+		for c := lo / PageSize; c <= hi/PageSize; c++ {
+			chunks[c] = struct{}{}
+		}
+	}
+	idx := make([]int64, 0, len(chunks))
+	for c := range chunks {
+		idx = append(idx, c)
+	}
+	sort.Slice(idx, func(i, j int) bool { return idx[i] < idx[j] })
+	var hdr [8]byte
+	for _, c := range idx {
+		ln := int64(PageSize)
+		if c*PageSize+ln > n {
+			ln = n - c*PageSize
+		}
+		b := d.Peek(off+c*PageSize, ln)
+		if isZero(b) {
+			continue
+		}
+		binary.LittleEndian.PutUint64(hdr[:], uint64(c))
+		h.Write(hdr[:])
+		h.Write(b)
+	}
+	var out [32]byte
+	copy(out[:], h.Sum(nil))
+	return out
+}
